@@ -420,3 +420,41 @@ Example C08_ex_values :
   years_since (mkdate 2021 59) (mkdate 2020 60) = Val (Some 0).
 Proof. exact ex_values. Qed.
 Print Assumptions C08_ex_values.
+From V Require Proofs.HoldsLib Proofs.C08HoldsAll.
+
+(* ---- the property's executable statement accepts the model's output on EVERY case line: all 27 ops
+   of the dispatcher and arbitrary argument lists (not only canonical encodings).  Whenever the judge
+   has an opinion (its verdict is not "skip", i.e. the arguments are in the property's domain) the
+   verdict is "ok".  No side premise: every argument list the judge reads is decoded by the
+   dispatcher too (the judge's decoders are not lazier than the model's), and an unknown op name is
+   skipped. *)
+Theorem C08_holds : forall op args,
+  V.Judge.C08.judge op args (V.Model.C08.run op args) <> JSkip ->
+  V.Judge.C08.judge op args (V.Model.C08.run op args) = JOk.
+Proof. exact C08HoldsAll.C08_holds. Qed.
+Print Assumptions C08_holds.
+Theorem C08_never_bad : forall op args,
+  V.Proofs.HoldsLib.not_bad (V.Judge.C08.judge op args (V.Model.C08.run op args)).
+Proof. exact C08HoldsAll.C08_never_bad. Qed.
+Print Assumptions C08_never_bad.
+(* not vacuous: in-domain case lines with a date, nothing and a panic as results, a zone-aware and a
+   naive date-time case at the ends of the time-of-day range, a week comparison; and case lines
+   outside the domain (ordinal 366 of a common year, a malformed argument, an unknown op) where the
+   judge has no opinion.  [dtenc y o s f off] = (y, o, s, f, off), [ndtenc y o s f] = (y, o, s, f). *)
+Example C08_holds_examples :
+  V.Judge.C08.judge (B"d8.addm") [denc 2024 31; VInt 1] (V.Model.C08.run (B"d8.addm") [denc 2024 31; VInt 1]) = JOk /\
+  V.Model.C08.run (B"d8.addm") [denc 2024 31; VInt 1] = VSome (denc 2024 60) /\
+  V.Judge.C08.judge (B"d8.opaddm") [denc 262142 365; VInt 1] (V.Model.C08.run (B"d8.opaddm") [denc 262142 365; VInt 1]) = JOk /\
+  V.Model.C08.run (B"d8.opaddm") [denc 262142 365; VInt 1] = VPanic /\
+  V.Judge.C08.judge (B"d8.dtyears") [C08HoldsAll.dtenc 2021 59 86399 1999999999 3600; C08HoldsAll.dtenc 2020 60 0 0 3600]
+    (V.Model.C08.run (B"d8.dtyears") [C08HoldsAll.dtenc 2021 59 86399 1999999999 3600; C08HoldsAll.dtenc 2020 60 0 0 3600]) = JOk /\
+  V.Judge.C08.judge (B"d8.ndt.with") [VStr (B"day0"); C08HoldsAll.ndtenc 2024 31 86399 1999999999; VInt 4294967295]
+    (V.Model.C08.run (B"d8.ndt.with") [VStr (B"day0"); C08HoldsAll.ndtenc 2024 31 86399 1999999999; VInt 4294967295]) = JOk /\
+  V.Judge.C08.judge (B"d8.weq") [denc 2024 60; VInt 0; denc 2024 60; VInt 6]
+    (V.Model.C08.run (B"d8.weq") [denc 2024 60; VInt 0; denc 2024 60; VInt 6]) = JOk /\
+  V.Judge.C08.judge (B"d8.addm") [denc 2023 366; VInt 1] (V.Model.C08.run (B"d8.addm") [denc 2023 366; VInt 1]) = JSkip /\
+  V.Model.C08.run (B"d8.addm") [denc 2023 366; VInt 1] = VBad /\
+  V.Judge.C08.judge (B"d8.addm") [VNone] (V.Model.C08.run (B"d8.addm") [VNone]) = JSkip /\
+  V.Judge.C08.judge (B"d8.nosuchop") [] (V.Model.C08.run (B"d8.nosuchop") []) = JSkip.
+Proof. exact C08HoldsAll.C08_holds_examples. Qed.
+Print Assumptions C08_holds_examples.
